@@ -1,0 +1,12 @@
+//go:build verif
+
+package rtsp
+
+// Verification hooks for property C15 (stalled consumer). Only built with -tags verif.
+
+// VerifC15SetCmdWriteChanSize sets the write channel size of new ServerCommandSession objects and returns the previous value.
+func VerifC15SetCmdWriteChanSize(n int) int {
+	old := serverCommandSessionWriteChanSize
+	serverCommandSessionWriteChanSize = n
+	return old
+}
